@@ -236,6 +236,28 @@ Theorem C11_result_whole_or_not_at_all :
 Proof. exact result_whole_or_not_at_all. Qed.
 Print Assumptions C11_result_whole_or_not_at_all.
 
+(* The local fallback is the ORIGINAL command: the compiler gets the client's whole environment — whatever subset
+   was sent to the server — and the client's own stdio. *)
+Theorem C11_fallback_is_the_original_command :
+  forall client_env sent_env : env_list,
+    lr_env (fallback_run client_env sent_env) = client_env /\
+    lr_stdio_inherited (fallback_run client_env sent_env) = true.
+Proof. exact fallback_is_the_original_command. Qed.
+Print Assumptions C11_fallback_is_the_original_command.
+
+(* For every history of servers binding a Unix socket path and exiting: a server's exit never changes who owns
+   the path; it leads to the server that bound it last (a draining old server cannot take the socket of the
+   server that replaced it away). *)
+Theorem C11_exit_keeps_the_socket :
+  forall evs s, sock_owner (evs ++ [SExit s]) = sock_owner evs.
+Proof. exact exit_keeps_the_socket. Qed.
+Print Assumptions C11_exit_keeps_the_socket.
+
+Theorem C11_socket_belongs_to_last_binder :
+  forall evs, sock_owner evs = last_bind evs None.
+Proof. exact socket_belongs_to_last_binder. Qed.
+Print Assumptions C11_socket_belongs_to_last_binder.
+
 (* ---------- well-formed but unservable requests do not disturb later requests ---------- *)
 
 (* The compiler map is shared by all connections.  For EVERY history of compile requests (any connections, any
@@ -338,3 +360,6 @@ Example ex_stale_xdg_runtime_dir :
   spawn_report {| e_tmpdir := None; e_xdg_runtime := Some DirUnusable; e_home := Some DirUnusable |} (SOk true) = SOk true /\
   spawn_report {| e_tmpdir := Some DirUnusable; e_xdg_runtime := None; e_home := None |} (SOk true) = SSpawnErr.
 Proof. split; reflexivity. Qed.
+
+Example ex_takeover : sock_owner [SBind 1; SBind 2; SExit 1] = Some 2.
+Proof. reflexivity. Qed.
